@@ -3,10 +3,47 @@ import SimuVerif.Lemmas.C11_Remesh
 import Batteries.Tactic.OpenPrivate
 /-
   The executable bookkeeping model `Model/Remesh.lean` REFINES the abstract surface operations of
-  `Model/Surface.lean` (what `Driver/C01.lean` validates at run time by comparing `Surface.canon`).
+  `Model/Surface.lean` — the link that `Driver/C01.lean` validates at run time by comparing `Surface.canon`
+  (`absCheck`) is proved here for `add_face`, `delete_face`, `split_edge` and `swap_edge`.
 
-  Everything is stated for an arbitrary scalar type `R` with the bare operations the model needs
-  (so it holds at `Float`, the type the driver runs at, and at every ordered field).
+  Everything is stated for an arbitrary scalar type `R` with the bare operations the model needs (no field
+  laws): it holds at `Float`, the type the driver runs at, and at every ordered field.
+
+  Method.  `slots c : List (Option Tri)` is the face array seen from outside (`some t` = live triangle,
+  `none` = unused slot); `abs c = (slots c).filterMap id`.  Every primitive either leaves `slots` alone
+  (`updFaceGeom`, `setFaceType`, `addNode`, `deleteNode`), sets one slot to `none` (`deleteFace`) or fills a
+  free / new slot (`addFace`); `liveM_set` turns that into equations between multisets of triangles.
+
+  Main results
+  * `TriEquiv` is an equivalence; `TriEquiv.of_canon` (the driver's test implies it; needs `QS.qsort_perm`,
+    proved here because core has no such lemma); `heM_triEquiv`, `inv_triEquiv` (`Inv` only depends on the
+    triangles up to rotation).
+  * `FaceFreeOk` (slot-store invariant of the face free list), preserved by every operation.
+  * `abs_addFace`, `abs_deleteFace`, `abs_setFaceType`, `abs_updFaceGeom`, `abs_addNode`, `abs_deleteNode`.
+  * `splitEdge_refines`: `(abs c').Perm (splitT (abs c) e.n1 e.n2 (newSlot c))` — stronger than asked, no rotation
+    is needed; `splitEdge_triEquiv`, `splitEdge_inv`.
+  * `swapEdge_refines`: `TriEquiv (abs c') (swapT (abs c) e.n1 e.n2)`; `swapEdge_inv`.  `checkWinding_eq`,
+    `cwFlip_*`: `check_face_winding_order` flips exactly when the reference traverses the shared edge in the same
+    direction; `swap_noflip` / `swap_flip`: under `Inv` both new faces are flipped or neither.
+  * decidable criteria `faceFreeOkB`, `edgeFacesB`, `edgeIdxSoundB` (uses injectivity of the Cantor key,
+    `Edge.key_inj`), and `swapGuard_of_B`, `splitGuard_of_B` (the Boolean guards the driver evaluates imply the
+    propositional ones); examples on the octahedron over ℚ evaluated by the kernel.
+
+  STATEMENT CHANGES with respect to the first formulation
+  * `e.n1 ≠ e.n2` is an explicit hypothesis of the split and swap theorems.  It is necessary: for a "loop" entry
+    with `n1 = n2` the abstract operation is the identity (`findDir T a a = none` under `NonDeg`) while the code
+    deletes two faces and creates four.
+  * swap: the abstract guard `SwapGuard (abs c) e.n1 e.n2` (what the driver checks as `swapGuardB`) and soundness of
+    the edge index `EdgeIdxSound c` are hypotheses, because the reference faces f5, f8 are read from the edge
+    index.  With them the code's own guards provably do not fire, so "the operation is performed (c' ≠ c)" is NOT
+    needed as a hypothesis.  Deriving `SwapGuard` from the code's guards instead would need COMPLETENESS of the
+    edge index (every half-edge of `abs c` has an entry) — e.g. for the "pillow" [(c,a,b),(c,b,a)] (c = d) both
+    code guards pass and the code only fails later with `badopt`.
+
+  NOT proved here (see the report): `mergeEdge` refines `collapseT` (needs the edge index as a sorted key-unique
+  map through `replaceNode.loop`, and that the fan around each end node is a single cycle — `Inv` alone allows a
+  pinched vertex, for which the walk of `replace_node` would miss faces); preservation of `EdgeIdxSound` by the
+  operations.
 -/
 set_option linter.unusedSectionVars false
 set_option linter.unusedVariables false
@@ -357,6 +394,18 @@ theorem FaceFreeOk.not_mem {c : Cell R} (h : FaceFreeOk c) {i : Nat} {t : Tri}
     (ht : (slots c)[i]? = some (some t)) : i ∉ c.freeFaces := by
   intro hi; rw [h.slot hi] at ht; cases ht
 
+theorem faceFreeOk_updFaceGeom {fn : Fn R} {c : Cell R} {fid : Nat} (h : FaceFreeOk c) :
+    FaceFreeOk (updFaceGeom fn c fid) := h.congr (slots_updFaceGeom fn c fid) (freeFaces_updFaceGeom fn c fid)
+
+theorem faceFreeOk_setFaceType {c : Cell R} {fid t : Nat} (h : FaceFreeOk c) :
+    FaceFreeOk (setFaceType c fid t) := h.congr (slots_setFaceType c fid t) (freeFaces_setFaceType c fid t)
+
+theorem faceFreeOk_addNode {c : Cell R} {p m : V3 R} (h : FaceFreeOk c) : FaceFreeOk (addNode c p m).1 :=
+  h.congr (by unfold slots; rw [(faces_addNode c p m).1]) (faces_addNode c p m).2
+
+theorem faceFreeOk_deleteNode {c : Cell R} {i : Nat} (h : FaceFreeOk c) : FaceFreeOk (deleteNode c i) :=
+  FaceFreeOk.congr (c := c) (c' := deleteNode c i) rfl rfl h
+
 /-! ### `delete_face` -/
 
 theorem deleteFace_eq {c c' : Cell R} {fid : Nat} (h : deleteFace c fid = .ok c') :
@@ -636,6 +685,16 @@ def EdgeFaces (c : Cell R) (ed : Edge) (x y : Nat) : Prop :=
   ∃ g1 g2 t1 t2, ed.f1 = some g1 ∧ ed.f2 = some g2 ∧ g1 ≠ g2 ∧
     (slots c)[g1]? = some (some t1) ∧ (slots c)[g2]? = some (some t2) ∧
     hasNode t1 x = true ∧ hasNode t1 y = true ∧ hasNode t2 x = true ∧ hasNode t2 y = true
+
+/-- `EdgeFaces` from the face records themselves -/
+theorem EdgeFaces.of_faces {c : Cell R} {ed : Edge} {x y g1 g2 : Nat} {F1 F2 : Face R}
+    (h1 : ed.f1 = some g1) (h2 : ed.f2 = some g2) (hne : g1 ≠ g2)
+    (hF1 : c.faces[g1]? = some F1) (hu1 : F1.used = true) (hF2 : c.faces[g2]? = some F2) (hu2 : F2.used = true)
+    (h1x : hasNode (F1.n1, F1.n2, F1.n3) x = true) (h1y : hasNode (F1.n1, F1.n2, F1.n3) y = true)
+    (h2x : hasNode (F2.n1, F2.n2, F2.n3) x = true) (h2y : hasNode (F2.n1, F2.n2, F2.n3) y = true) :
+    EdgeFaces c ed x y :=
+  ⟨g1, g2, _, _, h1, h2, hne, slot_some_iff.2 ⟨F1, hF1, hu1, rfl⟩, slot_some_iff.2 ⟨F2, hF2, hu2, rfl⟩,
+    h1x, h1y, h2x, h2y⟩
 
 theorem oppositeNode_some {f : Face R} {a b cc : Nat} (h : oppositeNode f a b = some cc) :
     cc ≠ a ∧ cc ≠ b ∧ hasNode (f.n1, f.n2, f.n3) cc = true := by
